@@ -109,7 +109,20 @@ def run_unit(name, tier, seed):
                 evaluations=int(stats['paths']), bounds=LIMITS[tier])
 
 
+REPLAY_ONE_PER_PROCESS = True
+
+
 def replay(c):
+    """in a fresh interpreter: the documents of the class in the order the check handles them (a finding may depend on the
+    documents parsed before it in the same process), then the single document alone"""
+    for tier in ('quick', 'thorough'):
+        for label, spec in variants(c['cls'], tier):
+            status, found = judge_spec(spec)
+            if label == c['witness']['variant']:
+                for k, d in found:
+                    if k == c['kind']:
+                        return True, d
+                break
     status, found = judge_spec(c['witness']['spec'])
     for k, d in found:
         if k == c['kind']:
